@@ -166,3 +166,67 @@ Proof.
   destruct Hin as [->|Hin]; [specialize (Hb b (or_introl eq_refl)); lia|].
   apply IH; auto. intros x Hx. apply Hb. right. exact Hx.
 Qed.
+
+(* ------------------------------------------------------------------ legacy push-down keeps whole pages *)
+Lemma page_all_true_sound p vs op lit c :
+  page_stat_ok p vs -> In c vs -> page_all_true p op lit = true ->
+  match c with Some v => cmp_true op v lit | None => false end = true.
+Proof.
+  intros (Hr & Hnn & Han) Hc Hp. unfold page_all_true in Hp. destruct (p_null p) eqn:En; try discriminate.
+  destruct c as [v|]; [|exfalso; exact (Hnn eq_refl Hc)]. specialize (Hr v Hc). destruct op; cbn [cmp_true];
+    repeat match goal with
+           | H : (_ || _) = true |- _ => apply orb_true_iff in H as [H|H]
+           | H : (_ && _) = true |- _ => apply andb_true_iff in H as [? ?]
+           | H : (_ <? _) = true |- _ => apply Z.ltb_lt in H
+           | H : (_ <=? _) = true |- _ => apply Z.leb_le in H
+           | H : (_ =? _) = true |- _ => apply Z.eqb_eq in H
+           end;
+    try (apply negb_true_iff; apply Z.eqb_neq; lia); try (apply Z.eqb_eq; lia); try (apply Z.ltb_lt; lia); try (apply Z.leb_le; lia).
+Qed.
+
+Lemma legacy_minmax_covers nan vs : forall acc lo hi,
+  legacy_float_minmax nan vs acc = Some (lo, hi) ->
+  (forall v, In (Some v) vs -> v <> nan -> lo <= v <= hi)
+  /\ (forall a b, acc = Some (a, b) -> lo <= a /\ b <= hi).
+Proof.
+  induction vs as [|c tl IH]; intros acc lo hi H; cbn [legacy_float_minmax] in H.
+  - split; [intros v []|]. intros a b E. rewrite E in H. inversion H; subst. lia.
+  - destruct c as [w|].
+    + destruct (Z.eqb_spec w nan) as [->|Hne].
+      * destruct (IH _ _ _ H) as [A B]. split; [|exact B]. intros v [Hv|Hv] Hn; [inversion Hv; subst; contradiction | auto].
+      * destruct (IH _ _ _ H) as [A B]. split.
+        -- intros v [Hv|Hv] Hn; [|auto]. inversion Hv; subst. destruct acc as [[a b]|].
+           ++ specialize (B _ _ eq_refl). lia.
+           ++ specialize (B _ _ eq_refl). lia.
+        -- intros a b E. subst acc. specialize (B _ _ eq_refl). lia.
+    + destruct (IH _ _ _ H) as [A B]. split; [|exact B]. intros v [Hv|Hv] Hn; [discriminate | auto].
+Qed.
+
+(* outside F23's class (no NaN, no NULL in the page) the collected statistics are a true guarantee *)
+Lemma legacy_float_page_ok nan vs p :
+  Known_C29_legacy_pushdown_float_nan_null nan vs = false -> legacy_float_page nan vs = Some p -> page_stat_ok p vs.
+Proof.
+  intros Hk Hp. unfold legacy_float_page in Hp. destruct (legacy_float_minmax nan vs None) as [[lo hi]|] eqn:E; [|discriminate].
+  inversion Hp; subst; clear Hp. unfold Known_C29_legacy_pushdown_float_nan_null in Hk.
+  assert (Hall : forall c, In c vs -> exists v, c = Some v /\ v <> nan).
+  { intros c Hc.
+    assert (F : forall x, In x vs -> match x with Some v => v =? nan | None => true end = false).
+    { clear -Hk. induction vs as [|a l IH]; intros x [].
+      - subst. cbn [existsb] in Hk. apply orb_false_iff in Hk. tauto.
+      - cbn [existsb] in Hk. apply orb_false_iff in Hk. apply IH; tauto. }
+    specialize (F c Hc). destruct c as [v|]; [|discriminate]. exists v. split; [reflexivity|]. apply Z.eqb_neq. exact F. }
+  destruct (legacy_minmax_covers nan vs None lo hi E) as [A _]. unfold page_stat_ok. cbn [p_min p_max p_null].
+  split; [|split].
+  - intros v Hv. destruct (Hall _ Hv) as (w & Ew & Hw). inversion Ew; subst. auto.
+  - intros _ Hn. destruct (Hall _ Hn) as (w & Ew & _). discriminate.
+  - intros Hn c Hc. exfalso. destruct (existsb (fun c0 => match c0 with None => true | Some _ => false end) vs) eqn:Ex; [|discriminate].
+    apply existsb_exists in Ex as (x & Hx & Ex). destruct x; [discriminate|]. destruct (Hall _ Hx) as (w & Ew & _). discriminate.
+Qed.
+
+(* F23 witness: page {NaN, -3}: statistics say [-3, -3], `f < 0` is answered TRUE for the whole page,
+   the NaN row does not satisfy it *)
+Lemma legacy_float_refuted :
+  let nan := 1000 in let vs := [Some 1000; Some (-3)] in
+  Known_C29_legacy_pushdown_float_nan_null nan vs = true
+  /\ exists p, legacy_float_page nan vs = Some p /\ page_all_true p OLt 0 = true /\ cmp_true OLt 1000 0 = false.
+Proof. cbn zeta. split; [reflexivity|]. eexists. split; [reflexivity|]. split; reflexivity. Qed.
